@@ -465,8 +465,10 @@ impl WindowedStream {
                             windows.push(window);
                         }
 
-                        // Slide forward (overlap 50%)
-                        current_start += window_ms / 2;
+                        // Slide forward (overlap 50%); always advance by at least 1 ms,
+                        // otherwise a window shorter than 2 ms never moves and the loop
+                        // neither terminates nor stops allocating windows
+                        current_start += (window_ms / 2).max(1);
                     }
                 }
             }
